@@ -333,32 +333,42 @@ def run(F, R, tier):
         r6.require(not missing, (fn, "missing"), "%s rejects characters of %s: %s" % (L.short(fn), desc, [chr(c) for c in missing][:12]))
         r6.require(ord("%") not in got, (fn, "percent"), "%s accepts a bare '%%'" % L.short(fn))
     # percent escapes
+    # percent escapes and URL segments: both validators are evaluated over a positional character stream and compared, world by
+    # world, with their specification.  A world is a string of up to LMAX characters, each known only through what the code can
+    # ask of it: == '%', is_ascii_hexdigit, the caller's character predicate, and its UTF-8 width (1 for '%' and hex digits,
+    # 1..4 otherwise) — byte lengths (`s.len()`, `&s[i..]`) are decided from the widths.
+    LMAX_ = 4
     fn = MOD + "::is_valid_percent_encoded_char"
-    h = F.hir(fn)
-    if r6.anchor(h, fn):
-        env = H.Env(h)
-        tails = [n for n, _ in H.exits(h) if H.literals(n) != [False]]
-        okl = okh = False
-        for t in tails:
-            for cj in H.conjuncts(t):
-                cj = H.strip(cj)
-                if cj.get("k") == "binary" and cj["op"] in ("Ge", "Gt", "Eq") and any(f.endswith("::len") for f in H.called_fns(cj)):
-                    lits = [x for x in H.literals(cj) if isinstance(x, int)]
-                    okl = (cj["op"] == "Ge" and lits == [3]) or (cj["op"] == "Gt" and lits == [2])
-                if cj.get("k") == "mcall" and cj["name"] == "all":
-                    takes = [x for x in H.walk(cj) if x.get("k") == "mcall" and x["name"] == "take"]
-                    okh = bool(takes) and H.literals(takes[0]["args"][0]) == [2] and any(f.endswith("is_ascii_hexdigit") for f in H.called_fns(cj))
-        first = any(n.get("k") == "let" and n.get("els") is not None and "%" in [x for x in (H.pat_str(n["pat"]),) ] or (n.get("k") == "let" and n.get("els") is not None) for n in H.walk(H.root(h)))
-        r6.site("is_valid_percent_encoded_char: leading '%%' required: %s, at least 3 chars: %s, two hex digits: %s" % (first, okl, okh))
-        r6.require(okh, (fn, "hex-digits"), "the two characters after '%' are not required to be hex digits")
-        r6.require(okl, (fn, "length"), "a '%' followed by fewer than two characters is accepted (`take(2).all(..)` is vacuously true on a short tail): truncated escape")
+    if r6.anchor(F.hir(fn), fn):
+        def spec_escape(w):
+            return len(w) >= 3 and w[0][0] == "P" and w[1][0] == "H" and w[2][0] == "H"
+
+        def key_escape(w, acc):
+            if not acc:
+                return "rejects-valid"
+            if not w or w[0][0] != "P":
+                return "percent-sign"
+            return "length" if len(w) < 3 else "hex-digits"
+        stream_worlds(r6, F, fn, LMAX_, spec_escape, key_escape, "`%` HEXDIG HEXDIG …", with_pred=False)
     fn = MOD + "::is_valid_url_segment"
-    h = F.hir(fn)
-    if r6.anchor(h, fn):
-        fns = {f.rsplit("::", 1)[-1] for f in H.called_fns(H.root(h))}
-        nexts = [n for n in H.walk(H.root(h)) if n.get("k") == "mcall" and n["name"] == "next"]
-        r6.site("is_valid_url_segment: uses is_valid_percent_encoded_char: %s; skips %d chars after an escape" % ("is_valid_percent_encoded_char" in fns, max(0, len(nexts) - 1)))
-        r6.require("is_valid_percent_encoded_char" in fns, (fn, "percent"), "is_valid_url_segment does not validate percent escapes")
+    if r6.anchor(F.hir(fn), fn):
+        def spec_segment(w):
+            i = 0
+            while i < len(w):
+                c = w[i][0]
+                if c == "P":
+                    if i + 2 < len(w) and w[i + 1][0] == "H" and w[i + 2][0] == "H":
+                        i += 3
+                        continue
+                    return False
+                if not w[i][1]:
+                    return False
+                i += 1
+            return True
+
+        def key_segment(w, acc):
+            return "percent" if any(c[0] == "P" for c in w) else "predicate"
+        stream_worlds(r6, F, fn, LMAX_, spec_segment, key_segment, "( pchar | `%` HEXDIG HEXDIG )*", with_pred=True)
     # method-id validator: evaluated abstractly over a positional character stream for every string of up to 4 characters, each
     # character known only through the three tests the code can make (== '%', is_ascii_hexdigit, is_char_method_id); accepted
     # exactly when the string matches ( idchar | "%" HEXDIG HEXDIG )*
@@ -446,6 +456,116 @@ def run(F, R, tier):
         r6.site("valid_method_id ≡ ( idchar | %%HH )* on all %d class-strings of length ≤ %d (%d paths): %s" % (len(words), LMAX, len(paths), bad == 0 and covered == len(words)))
     r6.floor(8)
 
+
+
+def stream_worlds(rule, F, fn, lmax, spec, key_of, spec_text, with_pred):
+    """Evaluate the string validator `fn` over a positional character stream and compare it with `spec` on every world of up to
+    `lmax` characters.  A character of a world is (cls, pred, width): cls 'P' ('%'), 'H' (ASCII hex digit) or 'O' (any other);
+    pred the value of the caller's character predicate on it; width its UTF-8 length.  The decision prefixes of the evaluated
+    paths form a tree; a world walks it by evaluating each decision atom concretely."""
+    import itertools
+    pname = sym.param_name(F, fn, 0, "s")
+    src = ("param", pname)
+    ev = sym.Evaluator(F, opaque=r"is_ascii_hexdigit$", inline_depth=3, loop_bound=lmax + 2, char_streams=True)
+    ev.max_stream_len = lmax
+    try:
+        paths = list(ev.explore(fn, max_paths=20000))
+    except (sym.Abort, sym.TooManyPaths) as e:
+        rule.fail((fn, "not-evaluable"), "%s could not be evaluated over a character stream: %s" % (L.short(fn), e))
+        return
+    root = {}
+    for q in paths:
+        node = root
+        for (a, c, _, _) in q.decisions:
+            node.setdefault("atom", a)
+            node = node.setdefault("kids", {}).setdefault(c, {})
+        node["path"] = q
+    pred_names = set()
+
+    def value(a, w):
+        """concrete value of a decision atom in the world w, or None when it is not one of the modelled questions"""
+        def pos(t):
+            return t[2] if isinstance(t, tuple) and t[:2] == ("at", src) and isinstance(t[2], int) else None
+
+        def blen(t):
+            if isinstance(t, tuple) and t[:1] == ("call",) and t[1].endswith("str::len") and len(t[2]) == 1:
+                x = t[2][0]
+                if x == src:
+                    return sum(c[2] for c in w)
+                if isinstance(x, tuple) and x[:2] == ("suffix", src):
+                    return sum(c[2] for c in w[x[2]:])
+            if isinstance(t, tuple) and t[:2] == ("bidx", src):
+                return sum(c[2] for c in w[:t[2]])
+            if isinstance(t, tuple) and t[:1] == ("lit",) and isinstance(t[1], int) and not isinstance(t[1], bool):
+                return t[1]
+            return None
+        if a[0] == "has" and a[1] == src:
+            return a[2] < len(w)
+        if a[0] == "eq":
+            for x, y in ((a[1], a[2]), (a[2], a[1])):
+                k = pos(x)
+                if k is not None and y == ("lit", "%"):
+                    return k < len(w) and w[k][0] == "P"
+        if a[0] == "truth" and isinstance(a[1], tuple) and a[1][:1] == ("call",) and len(a[1][2]) == 1 and pos(a[1][2][0]) is not None:
+            k = pos(a[1][2][0])
+            if k >= len(w):
+                return None
+            nm = re.sub(r"<[^<>]*>", "", a[1][1]).rsplit("::", 1)[-1]
+            if nm == "is_ascii_hexdigit":
+                return w[k][0] == "H"
+            if with_pred:
+                pred_names.add(nm)
+                return w[k][1]
+            return None
+        if a[0] in ("lt", "le", "eq"):
+            x, y = blen(a[1]), blen(a[2])
+            if x is not None and y is not None:
+                return {"lt": x < y, "le": x <= y, "eq": x == y}[a[0]]
+        return None
+    chars = [("P", False, 1)] + [("H", p_, 1) for p_ in ((True, False) if with_pred else (False,))] \
+        + [("O", p_, n_) for p_ in ((True, False) if with_pred else (False,)) for n_ in (1, 2, 3, 4)]
+    n_worlds = bad = 0
+    reached = set()
+    for n in range(lmax + 1):
+        for w in itertools.product(chars, repeat=n):
+            n_worlds += 1
+            node = root
+            why = None
+            while "path" not in node:
+                if "atom" not in node:
+                    why = "the evaluation ends without a result"
+                    break
+                v = value(node["atom"], w)
+                if v is None:
+                    why = "it decides on %s, which is not a question about the characters or the byte length of the argument" % sym.fmt_atom(node["atom"])
+                    break
+                if v not in node["kids"]:
+                    why = "no evaluated path takes %s = %s" % (sym.fmt_atom(node["atom"]), v)
+                    break
+                node = node["kids"][v]
+            shape = "".join("P" if c[0] == "P" else ("H" if c[1] or not with_pred else "h") if c[0] == "H" else ("c" if c[1] else "o") + (str(c[2]) if c[2] > 1 else "") for c in w) or "(empty)"
+            if why is None and not node["path"].complete:
+                why = "its path is incomplete (%s)" % (getattr(node["path"], "abort", None) or "bounds")
+            if why is not None:
+                bad += 1
+                rule.fail((fn, "not-evaluable"), "%s on a string of the shape %s: %s" % (L.short(fn), shape, why))
+                if bad > 5:
+                    break
+                continue
+            q = node["path"]
+            reached.add(id(q))
+            ret = q.ret[1] if isinstance(q.ret, tuple) and q.ret[:1] == ("lit",) else q.ret
+            if ret is not True and ret is not False:
+                bad += 1
+                rule.fail((fn, "not-boolean"), "%s returns %s on a string of the shape %s" % (L.short(fn), sym.fmt(q.ret) if not isinstance(q.ret, bool) else q.ret, shape))
+            elif ret != spec(w):
+                bad += 1
+                rule.fail((fn, key_of(w, ret)), "%s %s a string of the shape %s (P = '%%', H/h = hex digit, c/o = another character; lower-case h and o are rejected by the caller's predicate; a digit is the UTF-8 width): not %s" % (
+                    L.short(fn), "accepts" if ret else "rejects", shape, spec_text))
+        if bad > 5:
+            break
+    rule.require(len(pred_names) <= 1, (fn, "predicates"), "%s asks more than one predicate about a character: %s" % (L.short(fn), sorted(pred_names)))
+    rule.site("%s ≡ %s on all %d worlds of ≤ %d characters (%d paths, %d reached): %s" % (L.short(fn), spec_text, n_worlds, lmax, len(paths), len(reached), bad == 0))
 
 
 def check_validity_guards(F, r1):
